@@ -262,6 +262,20 @@ TRecvReady ==
   /\ UNCHANGED <<gsess, ghist, goq, pend, sOf, tOf, limOf, dOf, tStop, quitSent>>
 
 PvLegal(s, h, toks) == PlayMoves(s, h, toks)[1]
+\* "score mate y": when the principal variation runs into checkmate, y is the number of moves of the mating
+\* side in it, positive iff the side to move at the root gives the mate
+W_mateTok == W_mate
+RECURSIVE IntOf(_)
+IntOf(tok) == IF tok[1] = "-" THEN 0 - C!Num(Tail(tok)) ELSE C!Num(tok)
+MateScoreOf(ts) ==         \* <<is a mate score, y>>
+  LET idx == {i \in 1..(Len(ts) - 2) : ts[i] = W_score /\ ts[i + 1] = W_mate} IN
+  IF idx = {} THEN <<FALSE, 0>> ELSE <<TRUE, IntOf(ts[(CHOOSE i \in idx : TRUE) + 2])>>
+MateConsistent(s, ts, pv) ==
+  LET ms == MateScoreOf(ts)
+      res == PlayMoves(s, {}, pv) IN
+  (ms[1] /\ res[1] /\ C!Checkmate(res[2])) =>
+     /\ (IF ms[2] < 0 THEN 0 - ms[2] ELSE ms[2]) = (Len(pv) + 1) \div 2
+     /\ (ms[2] > 0) = (Len(pv) % 2 = 1)
 
 TRecvInfo ==
   /\ l <= N /\ Rec[l].ev = "recv" /\ Rec[l].kind = "info"
@@ -272,6 +286,7 @@ TRecvInfo ==
              /\ InfoGrammar(r.tokens)
              /\ r.depth = dOf[k] + 1
              /\ PvLegal(sOf[k], {}, r.pv)
+             /\ MateConsistent(sOf[k], r.tokens, r.pv)
         /\ dOf' = [dOf EXCEPT ![k] = r.depth]
   /\ Consume /\ KeepChess /\ lastT' = Rec[l].t
   /\ UNCHANGED <<gsess, ghist, goq, pend, sOf, tOf, limOf, tStop, readyQ, quitSent>>
